@@ -557,6 +557,17 @@ def pers_closure_rule(ctx):
         for x in ast.walk(init.node):
             if isinstance(x, ast.Call) and isinstance(x.func, ast.Name) and x.func.id == "isinstance" and len(x.args) == 2 and isinstance(x.args[0], ast.Name) and x.args[0].id in params and "Module" in norm_text(x.args[1]):
                 moduleish.add(x.args[0].id)
+        # ... or hands it to a helper of the class that makes that check (`self._as_embedding_net(embedding_net)`)
+        for x in ast.walk(init.node):
+            if isinstance(x, ast.Call) and isinstance(x.func, ast.Attribute) and isinstance(x.func.value, ast.Name) and x.func.value.id in ("self", "cls", cls.name):
+                h = cls.lookup_method(x.func.attr)
+                if h is None:
+                    continue
+                hp = [a for a, _ in h.params()]
+                for i, a in enumerate(x.args):
+                    if isinstance(a, ast.Name) and a.id in params and i < len(hp):
+                        if any(isinstance(y, ast.Call) and isinstance(y.func, ast.Name) and y.func.id == "isinstance" and len(y.args) == 2 and isinstance(y.args[0], ast.Name) and y.args[0].id == hp[i] and "Module" in norm_text(y.args[1]) for y in ast.walk(h.node)):
+                            moduleish.add(a.id)
         if not moduleish:
             continue
         n += 1
